@@ -175,9 +175,25 @@ def product(run, ts_paths, tokens, n, cap, observers=(), budget=3000000, per_sig
            "--per-sig", str(per_sig), "--max-witnesses", str(max_wit)]
     if observers:
         cmd += ["--observers"] + list(observers)
-    p = sh(cmd, timeout=timeout, check=False)
-    if p.returncode != 0:
-        raise ToolError("harness product failed: " + p.stdout[-3000:])
+    try:
+        p = sh(cmd, timeout=timeout, check=False)
+        rc = p.returncode
+        text = p.stdout
+    except ToolError:
+        rc, text = 124, "timeout"
+    if rc != 0:
+        # a read-only observer killed the process (stack overflow in inspect) or hung: the progress file names the call
+        prog = [f for f in os.listdir(run.dir) if f.startswith("progress-")]
+        if "inspect" in observers or any(o == "debug" for o in observers):
+            if prog:
+                pj = json.load(open(os.path.join(run.dir, prog[0])))
+                for f in prog:
+                    os.remove(os.path.join(run.dir, f))
+                return {"crashed": True, "rc": rc, "progress": pj}
+        raise ToolError(f"harness product failed (rc={rc}): " + text[-3000:])
+    for f in os.listdir(run.dir):
+        if f.startswith("progress-"):
+            os.remove(os.path.join(run.dir, f))
     j = json.load(open(out))
     j["witness_file"] = wit
     return j
